@@ -677,6 +677,23 @@ impl<'a> SeqRun<'a> {
             SeqCall::Sample { cycle } => {
                 let c = if *cycle == u32::MAX { self.cycle } else { *cycle };
                 self.samples.push((c, rt::galloc::live_bytes()));
+                if c % 100 == 0 && std::env::var_os("VERIF_DEBUG").is_some() {
+                    let mut m: BTreeMap<&'static str, (usize, usize)> = BTreeMap::new();
+                    rt::with(|r| {
+                        for b in r.live.borrow().values() {
+                            let e = m.entry(rt::state::short_ty(b.ty)).or_default();
+                            e.0 += 1;
+                            e.1 += b.len;
+                        }
+                    });
+                    eprintln!("cycle {} live_bytes {} blocks {} seam {:?} sizes {:?}", c, rt::galloc::live_bytes(), rt::galloc::live_blocks(), m, {
+                        let mut h: BTreeMap<usize, usize> = BTreeMap::new();
+                        for s in rt::galloc::survivors() {
+                            *h.entry(s).or_default() += 1;
+                        }
+                        h
+                    });
+                }
             }
             SeqCall::Repeat { .. } => unreachable!(),
         }
